@@ -858,7 +858,7 @@ def corpus_cases(prop):
 
 
 def run_property(ctx, prop, monitor, gen_kwargs, n_quick, n_thorough, replay=None, finding_sig=None,
-                 assumptions=None, directed=None, rule=""):
+                 assumptions=None, directed=None, rule="", extra_phase=None):
     info = common.prepare(ctx)
     obl = info["obl"]
     broken = []
@@ -921,6 +921,8 @@ def run_property(ctx, prop, monitor, gen_kwargs, n_quick, n_thorough, replay=Non
         ctx.violation({"property": prop, "what": msg, "all_failures": (f2 or f)[:5], "case": small,
                        "implementation_trace": res["cases"][0] if res else None,
                        "replay_cmd": "python3 check.py %s --replay <this file>" % prop})
+    if extra_phase and not replay:
+        extra_phase(ctx, info, coverage)
     if not ctx.violations and (broken or diffs):
         first = None
         if diffs:
